@@ -45,14 +45,15 @@ def _strip(o):
     if isinstance(o, list):
         return [_strip(x) for x in o]
     if isinstance(o, dict):
-        return {k: _strip(v) for k, v in o.items() if k not in ("line", "exp", "file")}
+        return {k: _strip(v) for k, v in o.items() if k not in ("line", "exp", "file", "fn_line")}
     return o
 
 
 def raw_hash(fam):
     import hashlib
     txt = json.dumps(_strip(sorted(fam, key=lambda b: b["path"])), sort_keys=True)
-    txt = re.sub(r"@src/[^\s\"}]*", "@", txt)             # source positions inside closure type names
+    txt = re.sub(r"\{closure@[^}]*\}", "{closure}", txt)   # source positions inside closure type names
+    txt = re.sub(r"DefId\(\d+:\d+ ~ ", "DefId(", txt)          # definition indices shift when an item is added or removed
     return hashlib.sha256(txt.encode()).hexdigest()[:20]
 
 
@@ -129,6 +130,29 @@ def apply(F):
         for b in family(doc, path):
             drop.add(b["path"])
         add.extend(base)
+    # a baseline body may call a private function that the respelt tree no longer has (it was inlined into its only
+    # caller): the representative needs that callee too
+    present = set(b["path"] for b in doc["bodies"]) - drop | set(b["path"] for b in add)
+    _, q = _baseline()
+    allb = None
+    work = list(add)
+    while work and q:
+        b = work.pop()
+        for blk in b.get("blocks", []):
+            t = blk["term"]
+            if t.get("k") != "call":
+                continue
+            f = t.get("func") or {}
+            res = f.get("resolved") or {}
+            c = res.get("path") if res.get("local") else (f.get("fn") if f.get("fn_local") else None)
+            if c and c not in present:
+                if allb is None:
+                    with gzip.open(q, "rt") as fh:
+                        allb = json.load(fh)
+                if c in allb:
+                    add.extend(allb[c])
+                    work.extend(allb[c])
+                    present |= set(x["path"] for x in allb[c])
     doc = dict(doc)
     doc["bodies"] = [b for b in doc["bodies"] if b["path"] not in drop] + add
     doc["_substituted"] = {p: {"hash": e["hash"], "from": e.get("from"), "why": e.get("why")} for p, (e, _) in hits.items()}
